@@ -2,8 +2,8 @@ package rules
 
 import (
 	"fmt"
-	"strings"
 	"go/token"
+	"strings"
 
 	"golang.org/x/tools/go/ssa"
 
@@ -483,6 +483,16 @@ func clearsWholeBuffer(p *core.Prog, fn *ssa.Function) (bool, string) {
 				continue
 			}
 			phi, ok := stripConv(ia.Index).(*ssa.Phi)
+			viaInc := false
+			if !ok {
+				// `for i := range buffer`: the index is counter+1 with the counter starting at -1
+				if bo, isBo := stripConv(ia.Index).(*ssa.BinOp); isBo && bo.Op == token.ADD {
+					if cst, isK := bo.Y.(*ssa.Const); isK && cst.Value != nil && cst.Value.String() == "1" {
+						phi, ok = bo.X.(*ssa.Phi)
+						viaInc = ok
+					}
+				}
+			}
 			if !ok {
 				return false, "slots are cleared at an index that is not a loop counter"
 			}
@@ -491,10 +501,10 @@ func clearsWholeBuffer(p *core.Prog, fn *ssa.Function) (bool, string) {
 			rangeStyle := false
 			for _, e := range phi.Edges {
 				if cst, ok := e.(*ssa.Const); ok && cst.Value != nil {
-					if cst.Value.String() == "0" {
+					if cst.Value.String() == "0" && !viaInc {
 						start = true
 					}
-					if cst.Value.String() == "-1" {
+					if cst.Value.String() == "-1" && viaInc {
 						start, rangeStyle = true, true
 					}
 				}
